@@ -242,7 +242,40 @@ def run(F, rep):
     if len(cv) != 1:
         raise AnalysisBroken('generateInitialisationCode: convertToString(scaling factor) vanished')
     got = g_sign * sign(nth_arg(cv[0], 0), 1)
+    # ... for EVERY kind of variable that has an initialising variable (states, but also the initial guess of an algebraic variable solved by an NLA system):
+    # the factor is Generator::scalingFactor(initialising variable) itself, not an expression that substitutes a constant for some variable types
+    from engines import single_def as _sd3
+    srcs = []
+    for r_ in walk(nth_arg(cv[0], 0)):
+        if r_.get('k') == 'Ref' and r_.get('dk') == 'local':
+            i_ = _sd3(gi, r_.get('d'))
+            while i_ is not None and i_.get('k') in ('Paren', 'Cast', 'Temp', 'Bind') and len(i_.get('c', [])) == 1:
+                i_ = i_['c'][0]
+            srcs.append((r_, i_))
+    direct = [i_ for r_, i_ in srcs if i_ is not None and i_.get('k') == 'Call' and i_.get('fn') == 'scalingFactor']
+    cond_on_type = [render(cnd)[:60] for c_ in direct for cnd, br, st in enclosing_conditions(gi, c_)] + [render(cnd)[:60] for cnd, br, st in enclosing_conditions(gi, cv[0]) if 'areNearlyEqual' not in render(cnd)]
+    rep.check(bool(direct) and len(direct) == len(srcs) and not cond_on_type, 'C03.S3', 'generator|initialising-variable|every kind of variable', gi.where(cv[0]),
+              'generateInitialisationCode does not take the factor from Generator::scalingFactor(initialising variable) for every variable: `%s`%s; an initial value given in other (compatible) units is then copied unscaled for some kinds of variable' % (
+                  '; '.join(render(i_)[:80] if i_ is not None else render(r_) for r_, i_ in srcs), (' under ' + ' and '.join(cond_on_type)) if cond_on_type else ''), 'scalingFactor(initialising variable), unconditionally')
     rep.check(got == -1 or g_sign == 0, 'C03.S3', 'generator|initialising-variable', gi.where(cv[0]), 'the initialising variable is multiplied by s^%+d; its value is given in its own units, so the primary variable needs s^-1' % got, 's^-1')
+
+    # ------------------------------------------------------------------ N1: numbers written into the code keep their digits
+    rep.rule('C03.N1', 'every double the library itself writes into generated code or into an equation AST (scaling factors, e, pi) is converted with convertToString(value) at full precision '
+                       '(15 significant digits; the second argument is absent or true): the 6-digit stream default turns 1/60 into 0.0166667 and the generated program computes with a relative error of 1e-6')
+    n_d1 = 0
+    for g_ in F.funcs.values():
+        if not (g_.file.endswith(('/generator.cpp', '/generatorprofile.cpp')) or g_.name in ('scaleAst', 'scaleEquationAst')):
+            continue
+        for c in g_.walk():
+            if c.get('k') == 'Call' and c.get('fn') == 'convertToString' and not c.get('mc') and 'double' in (c.get('ck') or ''):
+                n_d1 += 1
+                a1 = nth_arg(c, 1)
+                while a1 is not None and a1.get('k') in ('Paren', 'Cast') and len(a1.get('c', [])) == 1:
+                    a1 = a1['c'][0]
+                full = a1 is None or a1.get('k') == 'DefArg' or (a1.get('k') == 'Bool' and a1.get('v'))
+                rep.check(full, 'C03.N1', '%s|%s' % (g_.short.split('::')[-1], render(c)[:50]), g_.where(c), '%s writes `%s` with the stream default of 6 significant digits (fullPrecision = %s)' % (g_.short, render(nth_arg(c, 0))[:40], render(a1) if a1 is not None else '?'), 'full precision')
+    if n_d1 < 5:
+        raise AnalysisBroken('C03.N1: only %d conversions of doubles into code found (6 confirmed: generateInitialisationCode, scaleAst, e and pi of both profiles)' % n_d1)
 
     # ------------------------------------------------------------------ S4: the AST the analyser scales is the AST it builds
     rep.rule('C03.S4', 'the fields through which scaleEquationAst walks an equation (children of AnalyserEquationAstImpl) are the fields through which analyser.cpp links a child into an AST: '
@@ -427,3 +460,8 @@ def run(F, rep):
     import c09
     if not getattr(rep, 'nested', False):
         c09.run(F, core.Borrowed(rep, only={'C09.P3', 'C09.P4'}))
+    # ... and with C17: the helper functions the generated equations call (sec, csc, ..., acsch) are defined in the generated code exactly when the model uses them;
+    # a helper emitted under the flag of another one leaves a call to an undefined function in the code
+    import c17
+    if not getattr(rep, 'nested', False):
+        c17.run(F, core.Borrowed(rep, only={'C17.N1', 'C17.N2', 'C17.N3'}))
